@@ -388,9 +388,17 @@ func runC06(e *core.Env) {
 	nt := 2 + e.Choose("gen", 3, "tasks")
 	progs := make([][]c06Op, nt)
 	total := 0
+	// a listing that the registry pages takes several requests and cannot be atomic for any client: tags may be
+	// deleted between two pages. Paged listings are judged in the sequential mode (completeness); in the concurrent
+	// mode a paging registry gets head instead of list operations
+	paged := !useLayout && ep.reg.K.TagPage > 0
 	for t := range progs {
 		for i, n := 0, 1+e.Choose("gen", 3, "nops"); i < n; i++ {
-			progs[t] = append(progs[t], genOp())
+			op := genOp()
+			if paged && op.Kind == "list" {
+				op.Kind = "head"
+			}
+			progs[t] = append(progs[t], op)
 			total++
 		}
 	}
